@@ -1,4 +1,5 @@
 import LexgenModel.Proofs.NextProtocol
+import LexgenModel.Proofs.EndToEnd
 /-!
 # C03 — Rule sets are entered only by switch or failure reset; numbering is exact
 -/
@@ -22,5 +23,56 @@ theorem C03_switch (d : DFA Trans) (entries : List (String × Nat)) (name : Stri
 theorem C03_boundary_state (cfg : Config σ τ ε) (hm : MachineOK cfg) (st : LState σ) (hr : Ready cfg st)
     (item : Option (Item τ ε)) (st' : LState σ) (h : next cfg st = some (item, st')) : Ready cfg st' :=
   next_ready cfg hm st hr item st' h
+
+/-- …for every well-formed definition the model compiles (no run of the checker needed). -/
+theorem C03_boundary_state_compiled (items : LexerDef) (c : Compiled) (h : compileLexer items = .ok c) (hok : DefOK items)
+    (actions : Nat → Action σ τ ε) (width : Nat → Nat) (input : Option (List Nat)) (st : LState σ)
+    (hr : Ready (c.config actions width input) st) (item : Option (Item τ ε)) (st' : LState σ)
+    (hn : next (c.config actions width input) st = some (item, st')) : Ready (c.config actions width input) st' :=
+  next_ready _ (compileLexer_machineOK items c h hok actions width input) st hr item st' hn
+
+/-- Rule sets are isolated at the language level: from the entry of a rule set, the compiled machine only
+ever matches with rules of THAT rule set (`LangCand` ranges over `rules` alone). -/
+theorem C03_isolation (items : LexerDef) (c : Compiled) (h : compileLexer items = .ok c) (hok : DefOK items)
+    (ctxAt : Nat → Regex) (hnum : CtxNumbering items ctxAt)
+    (name : String) (rs : List RuleOrBinding) (b : Bindings) (k : Nat) (hmem : (name, rs, b, k) ∈ allRuleSets items)
+    (actions : Nat → Action σ τ ε) (width : Nat → Nat) (input : Option (List Nat)) :
+    ∃ e rules, IsEntryOf items c name e ∧ coreRules rs b k = some rules ∧
+      ∀ iter n a viaEoi, Cand (c.config actions width input) e iter n a viaEoi → ∃ r ∈ rules, r.value = a := by
+  obtain ⟨e, rules, he, _, hc, hiff⟩ := compile_cand_iff items c h hok ctxAt hnum name rs b k hmem actions width input
+  refine ⟨e, rules, he, hc, ?_⟩
+  intro iter n a viaEoi hcand
+  have hl := (hiff iter n a viaEoi).mp hcand
+  -- the selected action is the value of an entry of `matchingAccs rules _`, i.e. of a rule of the set
+  have key : ∀ (rest : List Nat) (accs : List Acc), firstLang ctxAt rest accs = some a → ∃ x ∈ accs, x.value = a := by
+    intro rest accs
+    induction accs with
+    | nil => intro hx; cases hx
+    | cons x more ih =>
+      intro hx
+      unfold firstLang at hx
+      cases hcx : x.ctx with
+      | none => rw [hcx] at hx; exact ⟨x, List.mem_cons_self, by simpa using hx⟩
+      | some i =>
+        rw [hcx] at hx
+        simp only at hx
+        by_cases hok' : CtxLang (ctxAt i) rest
+        · rw [if_pos hok'] at hx; exact ⟨x, List.mem_cons_self, by simpa using hx⟩
+        · rw [if_neg hok'] at hx
+          obtain ⟨y, hy, hv⟩ := ih hx
+          exact ⟨y, List.mem_cons_of_mem _ hy, hv⟩
+  unfold LangCand at hl
+  obtain ⟨_, hl⟩ := hl
+  cases viaEoi with
+  | true =>
+    simp only [if_true] at hl
+    obtain ⟨x, hx, hv⟩ := key _ _ hl.2
+    obtain ⟨r, hr, rfl⟩ := mem_matchingAccs hx
+    exact ⟨r, hr, hv⟩
+  | false =>
+    simp only [Bool.false_eq_true, if_false] at hl
+    obtain ⟨x, hx, hv⟩ := key _ _ hl
+    obtain ⟨r, hr, rfl⟩ := mem_matchingAccs hx
+    exact ⟨r, hr, hv⟩
 
 end Lexgen
